@@ -6,6 +6,7 @@ import (
 	"fmt"
 	"reflect"
 	"strings"
+	"sync"
 
 	"github.com/google/jsonschema-go/jsonschema"
 
@@ -161,8 +162,46 @@ func checkKeywords(s *jsonschema.Schema, j any, path string, populated map[strin
 	return ""
 }
 
+// heldBytes: the slice a direct Schema.MarshalJSON call returned earlier in this process, and a private copy of its
+// contents at that moment. Bytes handed to a caller belong to the caller: a later Marshal call must not write to them.
+var heldBytes struct {
+	sync.Mutex
+	raw, copy []byte
+	calls     int
+}
+
 func marshalSchema(c *fw.Case, s *jsonschema.Schema, what string) (data []byte, err error, ok bool) {
 	ok = c.CallChecked("Marshal", what, func() { data, err = json.Marshal(s) })
+	if !ok {
+		return
+	}
+	heldBytes.Lock()
+	defer heldBytes.Unlock()
+	if heldBytes.raw != nil && !bytes.Equal(heldBytes.raw, heldBytes.copy) {
+		c.Violation("the bytes returned by an earlier direct Schema.MarshalJSON call were overwritten by a later Marshal call",
+			map[string]any{"held_then": string(heldBytes.copy), "held_now": string(heldBytes.raw), "later_call": what})
+		heldBytes.raw = nil
+		ok = false
+		return
+	}
+	heldBytes.calls++
+	if heldBytes.calls%3 == 0 {
+		// the exported method called directly (json.Marshal copies what the method returns; a direct caller keeps the slice)
+		var direct []byte
+		var derr error
+		if !c.CallChecked("Schema.MarshalJSON", what, func() { direct, derr = s.MarshalJSON() }) {
+			ok = false
+			return
+		}
+		if (derr == nil) != (err == nil) {
+			c.Violation("Schema.MarshalJSON and json.Marshal disagree about whether the Schema can be marshaled", map[string]any{"method_error": fmt.Sprint(derr), "marshal_error": fmt.Sprint(err)})
+			ok = false
+			return
+		}
+		if derr == nil {
+			heldBytes.raw, heldBytes.copy = direct, bytes.Clone(direct)
+		}
+	}
 	return
 }
 
@@ -375,6 +414,29 @@ func (c05) docTrip(c *fw.Case) {
 		return
 	}
 	c.Eval(1)
+	if c.Idx%8 == 5 {
+		// the decode TARGET re-used: a boolean document replaces whatever the Schema variable held before (an object document
+		// merges into it, as encoding/json does for every struct: not decided)
+		used := new(jsonschema.Schema)
+		if json.Unmarshal([]byte(text), used) == nil {
+			for _, b := range []string{"true", "false", "true"} {
+				var uerr error
+				if !c.CallChecked("Unmarshal(reused target)", map[string]any{"first": json.RawMessage(text), "then": b}, func() { uerr = json.Unmarshal([]byte(b), used) }) {
+					return
+				}
+				out, merr, ok := marshalSchema(c, used, "reused target after "+b)
+				if !ok {
+					return
+				}
+				c.Eval(1)
+				if uerr != nil || merr != nil || string(out) != b {
+					c.Violation(fmt.Sprintf("the document %s decoded into a Schema variable that held another document does not marshal as %s", b, b),
+						map[string]any{"first_document": json.RawMessage(text), "then": b, "marshaled": string(out), "unmarshal_error": fmt.Sprint(uerr), "marshal_error": fmt.Sprint(merr)})
+					return
+				}
+			}
+		}
+	}
 	want := canon.Must(normalizeDoc(gen.Parse(text)))
 	got := canon.Must(normalizeDoc(gen.Parse(string(m))))
 	if want != got {
